@@ -1031,12 +1031,20 @@ where
             // is_empty() is sufficient here; store_pseudo_header already rejects duplicates.
             // Note: CONNECT requests (RFC 9113 §8.5) only need :method + :authority,
             // but we don't advertise SETTINGS_ENABLE_CONNECT_PROTOCOL so CONNECT is
-            // intentionally unsupported for now.
+            // intentionally unsupported for now. A CONNECT that does carry :scheme
+            // and :path is malformed (RFC 9113 §8.5: both MUST be omitted) and must
+            // not pass the presence gate below as an ordinary request: it would be
+            // written to an HTTP/1.1 backend as `CONNECT /path HTTP/1.1`, a request
+            // line no RFC 9112 §3.2.3 parser accepts.
+            let method_is_connect = method
+                .data_opt(kawa.storage.buffer())
+                .is_some_and(|m| m == b"CONNECT");
             if invalid_headers
                 || method.is_empty()
                 || authority.is_empty()
                 || path.is_empty()
                 || scheme.is_empty()
+                || method_is_connect
             {
                 error!("{} INVALID HEADERS", log_module_context!());
                 return Err((H2Error::ProtocolError, false));
